@@ -281,29 +281,29 @@ func c09Run(t interface{ Fatalf(string, ...any) }, p *c09Program) (sharedWriters
 						r.AddAttrs(slog.Int("k", g))
 						_ = h.Handle(context.Background(), r)
 					case "slog.PendingGroups.Handle":
-					// several goroutines through the SAME handler whose groups are still pending
-					r := slog.NewRecord(time.Unix(1, 0), slog.LevelInfo, "i", 0)
-					r.AddAttrs(slog.Int("k", g), slog.Any("v", c18Valuer{slog.StringValue("resolved")}))
-					_ = pending.Handle(context.Background(), r)
-				case "Observer.ReadMessages":
-					// a consumer of the observed entries reads their bytes (messages, names, string fields)
-					n := 0
-					for _, e := range logs.All() {
-						n += len(append([]byte(nil), e.Message...)) + len(append([]byte(nil), e.LoggerName...))
-						for _, f := range e.Context {
-							n += len(append([]byte(nil), f.String...))
+						// several goroutines through the SAME handler whose groups are still pending
+						r := slog.NewRecord(time.Unix(1, 0), slog.LevelInfo, "i", 0)
+						r.AddAttrs(slog.Int("k", g), slog.Any("v", c18Valuer{slog.StringValue("resolved")}))
+						_ = pending.Handle(context.Background(), r)
+					case "Observer.ReadMessages":
+						// a consumer of the observed entries reads their bytes (messages, names, string fields)
+						n := 0
+						for _, e := range logs.All() {
+							n += len(append([]byte(nil), e.Message...)) + len(append([]byte(nil), e.LoggerName...))
+							for _, f := range e.Context {
+								n += len(append([]byte(nil), f.String...))
+							}
 						}
-					}
-					_ = n
-				case "slog.PendingGroups.WithAttrs":
+						_ = n
+					case "slog.PendingGroups.WithAttrs":
 						_ = pending.WithAttrs([]slog.Attr{slog.Int("a", g)}).Handle(context.Background(), slog.NewRecord(time.Unix(1, 0), slog.LevelWarn, "i", 0))
 					case "BWSoverUnsafe.Write(small)":
-					_, _ = bwsUnsafe.Write([]byte("small\n"))
-				case "BWSoverUnsafe.Write(oversized)":
-					_, _ = bwsUnsafe.Write([]byte("an entry that is larger than the whole buffer of the syncer ......\n"))
-				case "BWSoverUnsafe.Sync":
-					_ = bwsUnsafe.Sync()
-				case "BWSoverLock.Write":
+						_, _ = bwsUnsafe.Write([]byte("small\n"))
+					case "BWSoverUnsafe.Write(oversized)":
+						_, _ = bwsUnsafe.Write([]byte("an entry that is larger than the whole buffer of the syncer ......\n"))
+					case "BWSoverUnsafe.Sync":
+						_ = bwsUnsafe.Sync()
+					case "BWSoverLock.Write":
 						_, _ = bwsOverLock.Write([]byte("buffered over the shared lock, longer than the buffer ............\n"))
 					case "BWSoverLock.Sync":
 						_ = bwsOverLock.Sync()
